@@ -34,7 +34,8 @@ THEOREMS = [
     "C07_refuted_boolop_as_operand", "C07_refuted_generator_variable_reused", "C07_refuted_generator_variable_builtin",
     "C07_refuted_nested_generator", "C07_refuted_compiled_fieldtype_constructor",
     "C07_refuted_typed_matcher_left_of_not_in",
-    "C07_prefix_refuted_first_link_only", "C07_prefix_refuted_ifs_ignored", "C07_eager_needs_all_defined",
+    "C07_prefix_refuted_first_link_only", "C07_prefix_refuted_ifs_ignored", "C07_prefix_refuted_attrs_dropped",
+    "C07_eager_needs_all_defined",
     "C07_hyp_satisfiable",
 ]
 
@@ -46,15 +47,63 @@ TS = _pydt.datetime(2021, 1, 1, tzinfo=_pydt.timezone.utc)
 D1_FIELDS = [("varint", "n"), ("varint", "m"), ("varint", "k"), ("string", "s"), ("string", "t"), ("string", "e"),
              ("boolean", "b"), ("varint[]", "a"), ("string[]", "l"), ("varint", "u")]
 D2_FIELDS = [("varint", "n"), ("string", "s"), ("varint[]", "a"), ("string", "z")]
+# nested records: typed values at depth 1 and 2 (record / record[] fields)
+I1_FIELDS = [("uri", "link"), ("string", "txt"), ("varint", "num")]
+I2_FIELDS = [("string", "txt"), ("varint", "num"), ("record", "deeper")]
+D3_FIELDS = [("varint", "n"), ("string", "s"), ("uri", "u"), ("record", "sub"), ("record[]", "subs"), ("varint[]", "a")]
+# implementation-level only (values the Coq model has no literal for)
+D4_FIELDS = [("net.ipaddress", "ip"), ("string", "s"), ("record", "sub")]
+I4_FIELDS = [("net.ipaddress", "addr"), ("uri", "link")]
+DESCS = {"D1": ("test/c07", D1_FIELDS), "D2": ("test/c07b", D2_FIELDS), "D3": ("test/c07n", D3_FIELDS),
+         "D4": ("test/c07ip", D4_FIELDS), "I1": ("test/inner", I1_FIELDS), "I2": ("test/inner2", I2_FIELDS),
+         "I4": ("test/innerip", I4_FIELDS)}
+URIS_TOP = ["http://top.net/x/y.z", "https://example.com/a/b.txt", "ftp://files.org/pub/readme"]
+URIS_NESTED = ["http://example.com/dl/evil.bin", "http://other.org/a/b.txt", "https://cdn.net/img/logo.png"]
+URI_ATTRS = ["filename", "hostname", "path", "scheme", "dirname"]
+URI_LITS = {"filename": ["y.z", "b.txt", "readme", "evil.bin", "logo.png"], "hostname": ["top.net", "example.com", "other.org", "cdn.net", "files.org"],
+            "path": ["/x/y.z", "/a/b.txt", "/dl/evil.bin", "/img/logo.png"], "scheme": ["http", "https", "ftp"],
+            "dirname": ["/x", "/a", "/dl", "/img", "/pub"]}
+IPS = ["10.0.0.1", "192.168.1.7", "::1"]
 
 INTS = [0, 1, 2, 3, 5, 7, 100, -1, -7, 255, 256, 65536, 2 ** 31, 2 ** 63, 2 ** 64, -2 ** 63 - 1]
 SMALL = [0, 1, 2, 3, 5, 7]
 STRS = ["", "a", "b", "abc", "ABC", "Xy", "ab c", "a.b", "é", "中", "aXb"]
 
 
-def descriptors():
+_DESC_CACHE = {}
+
+
+def descriptor(which):
     from flow.record import RecordDescriptor
-    return RecordDescriptor("test/c07", D1_FIELDS), RecordDescriptor("test/c07b", D2_FIELDS)
+    if which not in _DESC_CACHE:
+        nm, fields = DESCS[which]
+        _DESC_CACHE[which] = RecordDescriptor(nm, fields)
+    return _DESC_CACHE[which]
+
+
+def descriptors():
+    return descriptor("D1"), descriptor("D2")
+
+
+def random_inner(rnd, depth):
+    """spec of a nested record: ("I1" | "I2" | "I4", values)"""
+    if depth > 0 and rnd.random() < 0.5:
+        return ("I2", dict(txt=rnd.choice(STRS[:7]), num=rnd.choice(SMALL + [9, 100]),
+                           deeper=None if rnd.random() < 0.2 else random_inner(rnd, depth - 1)))
+    return ("I1", dict(link=None if rnd.random() < 0.1 else rnd.choice(URIS_NESTED), txt=rnd.choice(STRS[:7] + ["hello"]),
+                       num=rnd.choice(SMALL + [9, 100])))
+
+
+def random_nested_values(rnd):
+    return dict(n=rnd.choice(SMALL + [100]), s=rnd.choice(STRS[:7]), u=None if rnd.random() < 0.15 else rnd.choice(URIS_TOP),
+                sub=None if rnd.random() < 0.15 else random_inner(rnd, 1),
+                subs=[random_inner(rnd, 1) for _ in range(rnd.choice([0, 1, 2, 2]))],
+                a=[rnd.choice(SMALL) for _ in range(rnd.choice([0, 1, 2]))])
+
+
+def random_ip_values(rnd):
+    return dict(ip=rnd.choice(IPS), s=rnd.choice(STRS[:5]),
+                sub=("I4", dict(addr=rnd.choice(IPS), link=rnd.choice(URIS_NESTED))))
 
 
 def random_values(rnd, fields):
@@ -82,27 +131,46 @@ FIXED_RECORDS = [
     ("D1", dict(n=100, m=5, k=-7, s="abc", t="Xy", e="", b=True, a=[1, 2, 3], l=["a", "b"], u=None)),
     ("D1", dict(n=2, m=2, k=0, s="a", t="ABC", e="a", b=False, a=[], l=[], u=3)),
     ("D2", dict(n=2, s="abc", a=[2, 5], z="a")),
+    # the matching values sit ONLY in the nested records
+    ("D3", dict(n=1, s="top", u="http://top.net/x/y.z", sub=("I1", dict(link="http://example.com/dl/evil.bin", txt="hello", num=5)),
+                subs=[("I2", dict(txt="b", num=9, deeper=("I1", dict(link="http://other.org/a/b.txt", txt="abc", num=7))))],
+                a=[2])),
+    ("D3", dict(n=3, s="a", u=None, sub=None, subs=[("I1", dict(link="https://cdn.net/img/logo.png", txt="Xy", num=100))], a=[])),
+    ("D4", dict(ip="10.0.0.1", s="a", sub=("I4", dict(addr="192.168.1.7", link="http://example.com/dl/evil.bin")))),
 ]
 
 
 def make_records(rnd, count):
-    d1, d2 = descriptors()
     specs = list(FIXED_RECORDS)
     for i in range(max(0, count - len(specs))):
-        if i % 4 == 3:
+        if i % 6 == 3:
             specs.append(("D2", random_values(rnd, D2_FIELDS)))
+        elif i % 6 in (1, 4):
+            specs.append(("D3", random_nested_values(rnd)))
+        elif i % 6 == 5 and i % 12 == 5:
+            specs.append(("D4", random_ip_values(rnd)))
         else:
             specs.append(("D1", random_values(rnd, D1_FIELDS)))
-    recs = []
-    for which, vals in specs[:count]:
-        recs.append(build_record(which, vals))
-    return recs
+    return [build_record(which, vals) for which, vals in specs[:max(count, len(FIXED_RECORDS))]]
+
+
+def build_obj(which, vals):
+    """a real Record from a (descriptor key, values) spec; nested specs are tuples / lists of tuples / JSON lists"""
+    kw = {}
+    for ty, nm in DESCS[which][1]:
+        v = vals[nm]
+        if ty == "record" and v is not None:
+            v = build_obj(v[0], v[1])
+        elif ty == "record[]" and v is not None:
+            v = [build_obj(x[0], x[1]) for x in v]
+        kw[nm] = v
+    return descriptor(which)(_generated=TS, **kw)
 
 
 def build_record(which, vals):
-    d1, d2 = descriptors()
-    d = d1 if which == "D1" else d2
-    return dict(which=which, vals=vals, fields=D1_FIELDS if which == "D1" else D2_FIELDS, rec=d(_generated=TS, **vals))
+    r = dict(which=which, vals=vals, fields=DESCS[which][1], rec=build_obj(which, vals))
+    r["coq"] = None
+    return r
 
 
 # -------------------------------------------------------------------------------------------------
@@ -141,18 +209,38 @@ def cq_value(v, rec=None):
         return "(VTuple [%s])" % "; ".join(cq_value(x, rec) for x in v)
     if rec is not None and v is rec:
         return "VRec"
+    from flow.record.base import Record
+    if isinstance(v, Record):
+        return cq_sub(v)
     raise NotModelled(type(v).__name__)
 
 
-def cq_record(r):
+def cq_fields(rec):
+    import flow.record.fieldtypes as ft
     fs = []
-    for ty, nm in r["fields"]:
-        v = getattr(r["rec"], nm)      # what the record really holds (None for a list field becomes [])
+    for nm, fld in rec._desc.fields.items():
+        v = getattr(rec, nm)
+        ty = fld.typename
         if ty == "boolean" and v is not None:
             v = int(v)          # flow.record's boolean is an int subclass holding 0/1
+        if v is not None and ty not in ("varint", "string", "boolean", "uri", "record", "varint[]", "string[]", "record[]"):
+            raise NotModelled(ty)
+        # a uri is a str with extra properties: the model knows it as the str (its properties are outside the model)
         fs.append("(%s, %s, %s)" % (cq_str(nm), cq_str(ty), cq_value(v)))
-    name = "test/c07" if r["which"] == "D1" else "test/c07b"
-    return "{| rec_name := %s; rec_fields := [%s] |}" % (cq_cps(name), "; ".join(fs))
+    return "[%s]" % "; ".join(fs)
+
+
+def cq_sub(rec):
+    return "(VSub %s %s)" % (cq_cps(rec._desc.name), cq_fields(rec))
+
+
+def cq_record(r):
+    """the record as a Gallina literal, from what the real record holds (None for a list field becomes []);
+    None when it holds values the model has no literal for"""
+    try:
+        return "{| rec_name := %s; rec_fields := %s |}" % (cq_cps(r["rec"]._desc.name), cq_fields(r["rec"]))
+    except NotModelled:
+        return None
 
 
 BINOPS = {"Add": "Add", "Sub": "Sub", "Mult": "Mult", "MatMult": "MatMult", "Div": "Div", "Mod": "Mod", "Pow": "Pow",
@@ -261,7 +349,7 @@ def eval_codes(ctx, records_coq, cases, shard_size=150, name="c07"):
     """cases: list of (record index, expr literal, oi, op, oc, os).  Returns (codes, err)."""
     shards = []
     sizes = []
-    hdr = COQ_HEADER + "".join("Definition R%d : record := %s.\n" % (i, r) for i, r in enumerate(records_coq))
+    hdr = COQ_HEADER + "".join("Definition R%d : record := %s.\n" % (i, r) for i, r in enumerate(records_coq) if r is not None)
     for k in range(0, len(cases), shard_size):
         chunk = cases[k:k + shard_size]
         sizes.append(len(chunk))
@@ -306,19 +394,52 @@ def _guard(op, a, b):
         raise TooBig()
 
 
-class RefTypeValues:
-    """Reference meaning of `Type.<type>` (documented: the comparison / membership holds for ANY field of that type)."""
+REF_MISSING = object()
 
-    def __init__(self, r, ty):
-        self.r, self.ty = r, ty
+
+def ref_walk(rec):
+    """the record, then -- depth first -- the records in its `record` fields, then those in its `record[]` fields"""
+    yield rec
+    for nm, fld in rec._desc.fields.items():
+        if fld.typename == "record":
+            v = getattr(rec, nm)
+            if v is not None:
+                yield from ref_walk(v)
+    for nm, fld in rec._desc.fields.items():
+        if fld.typename == "record[]":
+            v = getattr(rec, nm)
+            if v is not None:
+                for x in v:
+                    yield from ref_walk(x)
+
+
+class RefTypeValues:
+    """Reference meaning of `Type.<type>[.<attr>...]` (documented: the comparison / membership holds for ANY field of
+    that type anywhere in the record tree, after following the attribute path)."""
+
+    def __init__(self, rec, ty, attrs=()):
+        self._rec, self._ty, self._attrs = rec, ty, tuple(attrs)
+
+    def __getattr__(self, a):
+        if a.startswith("_"):
+            raise AttributeError(a)
+        return RefTypeValues(self._rec, self._ty, self._attrs + (a,))
 
     def _vals(self):
-        for ty, nm in self.r["fields"]:
-            if ty == self.ty:
-                yield getattr(self.r["rec"], nm)
+        for rec in ref_walk(self._rec):
+            for nm, fld in rec._desc.fields.items():
+                if fld.typename != self._ty:
+                    continue
+                v = getattr(rec, nm)
+                for a in self._attrs:
+                    v = getattr(v, a, REF_MISSING)
+                    if v is REF_MISSING:
+                        break
+                if v is not REF_MISSING:
+                    yield v
 
     def __iter__(self):
-        return iter([nm for ty, nm in self.r["fields"] if ty == self.ty])
+        return iter([nm for nm, fld in self._rec._desc.fields.items() if fld.typename == self._ty])
 
     def _any(self, op, other):
         for v in self._vals():
@@ -351,14 +472,19 @@ class RefTypeValues:
 
 
 class RefType:
-    def __init__(self, r):
-        self._r = r
+    def __init__(self, rec, prefix=""):
+        self._rec, self._prefix = rec, prefix
 
     def __getattr__(self, ty):
         from flow.record.whitelist import WHITELIST
-        if ty.startswith("_") or ty not in WHITELIST:
+        if ty.startswith("_"):
             raise AttributeError(ty)
-        return RefTypeValues(self._r, ty)
+        path = self._prefix + ty
+        if path in WHITELIST:
+            return RefTypeValues(self._rec, path)
+        if any(w.startswith(path + ".") for w in WHITELIST):
+            return RefType(self._rec, path + ".")
+        raise AttributeError(ty)
 
 
 def ref_lower(s):
@@ -372,30 +498,35 @@ def ref_upper(s):
 def reference_namespace(r):
     """The names of the documented selector language, bound to independent reference implementations."""
     rec = r["rec"]
-    fieldnames = [nm for _, nm in r["fields"]]
+    from flow.record.base import Record
     MISSING = object()
 
-    def get(field):
-        if not isinstance(field, str):
-            raise TypeError("attribute name must be string")
-        return getattr(rec, field) if field in fieldnames else (getattr(rec, field, MISSING) if field.startswith("_") else MISSING)
+    def need_record(x):
+        if not isinstance(x, Record):
+            raise AttributeError("not a record")
+
+    def getter(x):
+        need_record(x)
+        fieldnames = list(x._desc.fields)
+
+        def get(field):
+            if not isinstance(field, str):
+                raise TypeError("attribute name must be string")
+            return getattr(x, field) if field in fieldnames else (getattr(x, field, MISSING) if field.startswith("_") else MISSING)
+        return get
 
     def ref_name(x):
-        return rec._desc.name if x is rec else "UnknownRecord"
+        return x._desc.name if isinstance(x, Record) else "UnknownRecord"
 
     def ref_names(x):
-        return {rec._desc.name} if x is rec else ["UnknownRecord"]
-
-    def need_record(x):
-        if x is not rec:
-            raise AttributeError("not a record")
+        return {x._desc.name} if isinstance(x, Record) else ["UnknownRecord"]
 
     def ref_has_field(x, field):
         need_record(x)
-        return field in fieldnames
+        return field in list(x._desc.fields)
 
     def ref_field_equals(x, fields, strings, nocase=True):
-        need_record(x)
+        get = getter(x)
         want = [ref_lower(s) for s in strings] if nocase else strings
         for f in fields:
             v = get(f)
@@ -409,7 +540,7 @@ def reference_namespace(r):
         return False
 
     def ref_field_contains(x, fields, strings, nocase=True, word_boundary=False):
-        need_record(x)
+        get = getter(x)
         want = [ref_lower(s) for s in strings] if nocase else strings
         for f in fields:
             v = get(f)
@@ -429,7 +560,7 @@ def reference_namespace(r):
         return False
 
     def ref_field_regex(x, fields, regex):
-        need_record(x)
+        get = getter(x)
         pat = re.compile(regex)
         for f in fields:
             v = get(f)
@@ -443,7 +574,7 @@ def reference_namespace(r):
         return str(type(x))
 
     import flow.record.fieldtypes as ft
-    ns = dict(r=rec, Type=RefType(r), lower=ref_lower, upper=ref_upper, name=ref_name, names=ref_names,
+    ns = dict(r=rec, Type=RefType(rec), lower=ref_lower, upper=ref_upper, name=ref_name, names=ref_names,
               has_field=ref_has_field, field_equals=ref_field_equals, field_contains=ref_field_contains,
               field_regex=ref_field_regex, get_type=ref_get_type, net=ft.net,
               string=ft.string, varint=ft.varint, wstring=ft.wstring, uint16=ft.uint16, uint32=ft.uint32,
@@ -649,10 +780,14 @@ def find_known(kf, **case):
 class Gen:
     VARS = ["x", "y", "z", "w", "v", "q"]
 
-    def __init__(self, rnd, fields, wide=False):
+    def __init__(self, rnd, fields, wide=False, nested=False):
         self.rnd = rnd
+        self.nested = nested
         self.ints = [nm for ty, nm in fields if ty in ("varint", "boolean")]
-        self.strs = [nm for ty, nm in fields if ty == "string"]
+        self.strs = [nm for ty, nm in fields if ty in ("string", "uri")]
+        if nested:
+            self.ints += ["sub.num", "sub.deeper.num"]
+            self.strs += ["sub.txt", "sub.link"]
         self.ilists = [nm for ty, nm in fields if ty == "varint[]"]
         self.slists = [nm for ty, nm in fields if ty == "string[]"]
         self.wide = wide            # also constructs the Coq model declines (floats, regex, net.*): implementation-level only
@@ -784,8 +919,35 @@ class Gen:
             parts.append(self.value(d - 1, want))
         return "(%s)" % " ".join(parts)
 
+    def typed_nested(self, d):
+        """typed matchers with and without attribute paths, aimed at values held by nested records"""
+        r = self.rnd
+        c = r.random()
+        cmp6 = ["==", "==", "!=", "<", "<=", ">", ">="]
+        if c < 0.4:
+            at = r.choice(URI_ATTRS)
+            lit = repr(r.choice(URI_LITS[at]))
+            if r.random() < 0.2:
+                return "(%s %s Type.uri.%s)" % (lit if r.random() < 0.7 else repr(r.choice(URI_LITS[at])[1:3]), r.choice(["in", "not in"]), at)
+            return "(Type.uri.%s %s %s)" % (at, r.choice(["==", "==", "==", "!="]), lit) if r.random() < 0.8 \
+                else "(%s %s Type.uri.%s)" % (lit, r.choice(["==", "!="]), at)
+        if c < 0.5:
+            return "(Type.uri %s %s)" % (r.choice(["==", "!="]), repr(r.choice(URIS_TOP + URIS_NESTED)))
+        if c < 0.7:
+            at = r.choice(["real", "real", "imag", "denominator", "numerator"])
+            return "(Type.varint.%s %s %s)" % (at, r.choice(cmp6), r.choice(["0", "1", "5", "7", "9", "100", "r.n"]))
+        if c < 0.8:
+            return "(Type.varint %s %s)" % (r.choice(cmp6), r.choice(["5", "7", "9", "100"]))
+        if c < 0.9:
+            return "(Type.string %s %s)" % (r.choice(["==", "!="]), repr(r.choice(["hello", "abc", "b", "Xy", "top"])))
+        if c < 0.95:
+            return "(%s in Type.string)" % repr(r.choice(["ell", "b", "X", "zz"]))
+        return "(Type.uri.%s == 1)" % r.choice(["zzz", "filename.zz", "port"])
+
     def typed(self, d):
         r = self.rnd
+        if self.nested and r.random() < 0.75:
+            return self.typed_nested(d)
         ty = r.choice(["varint", "string", "boolean", "varint[]", "uint16"])
         ty = ty if "[" not in ty else "varint"
         lit = self.value(d - 1, "int" if ty in ("varint", "boolean", "uint16") else "str")
@@ -832,6 +994,15 @@ class Gen:
         self.used.append(var)
         kind = r.choice(["int", "str"])
         c = r.random()
+        if self.nested and r.random() < 0.3:
+            # over the records of a record[] field: the element's own fields
+            saved = list(self.scope)
+            fld, lits, k2 = r.choice([("num", ["5", "7", "9", "100", "r.n"], "int"), ("txt", ["'hello'", "'b'", "'abc'", "r.s"], "str")])
+            elt = "(%s.%s %s %s)" % (var, fld, r.choice(["==", "!=", "<", ">"]), r.choice(lits))
+            if r.random() < 0.3:
+                elt = "(%s and %s)" % (elt, self.boolean(max(d - 2, 0), nested_ok=False))
+            self.scope = saved
+            return "%s(%s for %s in r.subs)" % (q, elt, var)
         if kind == "int":
             it = ("r." + r.choice(self.ilists)) if (c < 0.5 and self.ilists) else "[%s]" % ", ".join(self.int_leaf() for _ in range(r.choice([0, 1, 2, 3])))
         else:
@@ -859,9 +1030,25 @@ class Gen:
                 self.scope.append((var2, kind))
         inner = d - 1
         body_nested = nested_ok and r.random() < 0.04
+        last = self.scope[-1][0]
+
+        def about_var():
+            # a test whose outcome depends on WHICH element the loop variable holds
+            if kind == "int":
+                return "(%s %s %s)" % (last, r.choice(["==", "!=", "<", ">", "<=", ">="]), r.choice(["0", "1", "2", "3", "5", "7", "r.m", "r.k"]))
+            return "(%s %s %s)" % (last, r.choice(["==", "!=", "<", ">", "in"]), r.choice(["'a'", "'b'", "'abc'", "r.s", "r.t", "'Xy'"]))
+
         for _ in range(r.choice([0, 0, 0, 1, 1, 2])):
-            clauses += " if %s" % self.boolean(min(inner, 1), nested_ok=body_nested)
-        elt = self.boolean(inner, nested_ok=body_nested) if r.random() < 0.85 else self.value(inner)
+            clauses += " if %s" % (about_var() if r.random() < 0.5 else self.boolean(min(inner, 1), nested_ok=body_nested))
+        c2 = r.random()
+        if c2 < 0.4:
+            elt = about_var()
+        elif c2 < 0.5:
+            elt = "(%s %s %s)" % (about_var(), r.choice(["and", "or"]), self.boolean(max(inner - 1, 0), nested_ok=False))
+        elif c2 < 0.9:
+            elt = self.boolean(inner, nested_ok=body_nested)
+        else:
+            elt = self.value(inner)
         self.scope = saved
         return "%s(%s %s)" % (q, elt, clauses)
 
@@ -878,7 +1065,7 @@ class Gen:
             return "(%s)" % (" %s " % op).join(self.boolean(d - 1, nested_ok) for _ in range(n))
         if c < 0.66:
             return "(not %s)" % self.boolean(d - 1, nested_ok)
-        if c < 0.76:
+        if c < (0.70 if self.nested else 0.76):
             return self.helper(d)
         if c < 0.82:
             return self.typed(d)
@@ -909,6 +1096,13 @@ OUTSIDE_NODES = [
     "{x: 1 for x in r.a}", "f'{r.n}'", "(lambda: 1)", "(y := 1)", "r.s.upper()", "'abc'.upper()", "len(r.a)", "bool(r.n)",
     "[*r.a]", "lower(*r.l)", "lower(**{})", "foo", "foo(1)", "r.__class__", "any(a for a, b in [(1, 2)])",
     "r.zz - 1", "1 - r.zz",
+]
+IP_TEMPLATES = [
+    "Type.net.ipaddress == '192.168.1.7'", "Type.net.ipaddress == '10.0.0.1'", "Type.net.ipaddress == '10.9.9.9'",
+    "r.ip == '10.0.0.1'", "r.sub.addr == net.ipaddress('192.168.1.7')", "r.sub.addr != r.ip", "Type.uri.filename == 'evil.bin'",
+    "Type.uri.hostname == 'example.com' and r.ip == net.ipaddress('10.0.0.1')", "Type.net.ipaddress.version == 4",
+    "Type.net.ipaddress.version == 6", "any(x.addr == r.ip for x in [r.sub])", "net.ipaddress('10.0.0.1') in net.ipnetwork('10.0.0.0/8')",
+    "r.ip in net.ipnetwork('10.0.0.0/8')", "Type.net.ipaddress.is_private == True", "r.sub.link.filename == 'evil.bin'",
 ]
 OUTSIDE_CONTEXTS = ["{U}", "({U}) == 1", "True or ({U}) == 1", "False and ({U}) == 1", "not ({U})", "[{U}] == []", "lower({U}) == 1",
                     "({U}) + 1 == 2", "any(({U}) == 1 for x in [1])", "1 < 2 < ({U})", "field_equals(r, ['s'], [{U}])"]
@@ -1067,32 +1261,49 @@ def shape_of(tree):
     return ast.dump(tree, annotate_fields=False)
 
 
-def differential(ctx, kf, budget_pairs, maxdepth, rnd, with_coq, exhaustive=False, time_limit=None):
+def differential(ctx, kf, budget_pairs, maxdepth, rnd, with_coq, exhaustive=False, time_limit=None, outside_first=True):
     """Generate, run on the implementation, check (a) and (c); optionally collect Coq cases for (b)."""
     chk = Checker(ctx, kf)
     nrec = 10 if ctx.tier == "quick" else 24
     recs = make_records(rnd, nrec)
+    for r in recs:
+        r["coq"] = cq_record(r) if with_coq else None
     d1_idx = [i for i, r in enumerate(recs) if r["which"] == "D1"]
+    d3_idx = [i for i, r in enumerate(recs) if r["which"] == "D3"]
+    d4_idx = [i for i, r in enumerate(recs) if r["which"] == "D4"]
     cases, metas = [], []
     t0 = time.time()
     g1 = Gen(rnd, D1_FIELDS)
     gw = Gen(rnd, D1_FIELDS, wide=True)
+    g3 = Gen(rnd, D3_FIELDS, nested=True)
 
     def texts():
-        for u, c in itertools.product(OUTSIDE_NODES, OUTSIDE_CONTEXTS):
-            yield "outside", c.replace("{U}", u)
+        if outside_first:
+            for u, c in itertools.product(OUTSIDE_NODES, OUTSIDE_CONTEXTS):
+                yield "outside", c.replace("{U}", u)
         if exhaustive:
             for t in exhaustive_small():
                 yield "exh", t
-        while True:
+        for t in IP_TEMPLATES:
+            yield "ip", t
+        for _ in range(budget_pairs):
             depth = rnd.choice(range(1, maxdepth + 1))
-            yield "gen", (gw if rnd.random() < 0.12 else g1).top(depth)
+            c = rnd.random()
+            if c < 0.25:
+                yield "nested", g3.top(depth)
+            else:
+                yield "gen", (gw if c < 0.35 else g1).top(depth)
+        if not outside_first:
+            for u, c in itertools.product(OUTSIDE_NODES, OUTSIDE_CONTEXTS):
+                yield "outside", c.replace("{U}", u)
 
     npairs = 0
     ngen = 0
     seen = set()
     for kind, text in texts():
         if ngen >= budget_pairs and kind == "gen":
+            continue
+        if chk.reported:
             break
         if time_limit and time.time() - t0 > time_limit:
             break
@@ -1113,6 +1324,13 @@ def differential(ctx, kf, budget_pairs, maxdepth, rnd, with_coq, exhaustive=Fals
                 lit = None
         elif kind == "outside":
             picks = [0, 2]
+        elif kind == "ip":
+            picks = d4_idx[:3]
+        elif kind == "nested":
+            picks = [rnd.choice(d3_idx), rnd.choice(d3_idx[:2])]
+            if rnd.random() < 0.2:
+                picks.append(rnd.randrange(len(recs)))
+            kind = "gen"
         else:
             picks = [rnd.choice(d1_idx), rnd.randrange(len(recs))]
             if rnd.random() < 0.5:
@@ -1134,13 +1352,14 @@ def differential(ctx, kf, budget_pairs, maxdepth, rnd, with_coq, exhaustive=Fals
             if kind == "outside":
                 chk.outside_check(text, tree, r, oi)
             chk.property_check(text, tree, r, outs)
-            if lit is not None:
+            if lit is not None and r["coq"] is not None:
                 rec = r["rec"]
                 cases.append((ri, lit, cq_outcome(oi, rec), cq_outcome(op, rec), cq_outcome(oc, rec),
                               cq_outcome(os_, rec) if os_[0] != "undef" else "(IExc EUndefined)"))
                 metas.append(dict(expr=text, record=dict(which=r["which"], vals=r["vals"]), interpreted=repr(oi)[:200],
                                   python=repr(op)[:200], compiled=repr(oc)[:200], strict=repr(os_)[:200]))
-            if len(ctx.coverage["samples"]) < 6 and kind == "gen" and nontrivial(text):
+            if len(ctx.coverage["samples"]) < 6 and kind == "gen" and nontrivial(text) and len(text) > 40 \
+                    and all(smp["expr"] != text for smp in ctx.coverage["samples"]):
                 ctx.sample(dict(expr=text, record=fmt_vals(r), interpreted=repr(truth_of(oi)), compiled=repr(truth_of(oc)),
                                 python=repr(truth_of(op)), all_defined=os_[0] == "val"))
         if len(chk.sel_cache) > 4000:
@@ -1154,7 +1373,8 @@ def search(ctx, reason):
     rnd = random.Random(ctx.seed)
     try:
         chk, _, _, _ = differential(ctx, kf, 6000 if ctx.tier == "quick" else 40000, 3, rnd, with_coq=False,
-                                    exhaustive=(ctx.tier != "quick"), time_limit=60 if ctx.tier == "quick" else 600)
+                                    exhaustive=(ctx.tier != "quick"), time_limit=60 if ctx.tier == "quick" else 600,
+                                    outside_first=False)
     except Exception as e:  # noqa
         ctx.notes.append("search failed: %r" % e)
         return False
@@ -1190,7 +1410,7 @@ def run(ctx):
         return
     rnd = random.Random(ctx.seed)
     quick = ctx.tier == "quick"
-    chk, recs, cases, metas = differential(ctx, kf, 16000 if quick else 120000, 3 if quick else 5, rnd, with_coq=True,
+    chk, recs, cases, metas = differential(ctx, kf, 12000 if quick else 120000, 3 if quick else 5, rnd, with_coq=True,
                                            exhaustive=not quick)
     ctx.coverage["exhaustive"] = False
     ctx.coverage["programs"] = len({m["expr"] for m in metas}) if metas else 0
@@ -1203,7 +1423,7 @@ def run(ctx):
         keep = sorted(rnd.sample(range(len(cases)), 60000))
         cases = [cases[i] for i in keep]
         metas = [metas[i] for i in keep]
-    codes, err = eval_codes(ctx, [cq_record(r) for r in recs], cases)
+    codes, err = eval_codes(ctx, [r["coq"] for r in recs], cases)
     if err:
         ctx.violation("correspondence shards did not evaluate: " + err[:300], dict(kind="coq-eval", log=err), no_input=True)
         return
